@@ -7,7 +7,7 @@ from vf.ob import obligation, shard
 from tartiflette import Resolver
 
 META = {
-    "bounds": "request sequences of length <= 3 over a pool of 17 documents (valid incl. fragments on interface / implementer, variables nested in object/list literals and multi-operation, invalid, syntactically broken, "
+    "bounds": "request sequences of length 3 (first x second from the shard set below; third = first again / second again / one of 4 probes) over a pool of 17 documents (valid incl. fragments on interface / implementer, variables nested in object/list literals and multi-operation, invalid, syntactically broken, "
               "runtime-failing) x str/bytes spelling x per-request int variable (unbounded) x operation name; 4 cache configurations: default lru_cache(512) (real, CrossHair's cache "
               "bypass removed), lru_cache(1), custom dict decorator, cache disabled",
     "outside": "sequences longer than 3; cache decorators other than these four",
@@ -169,16 +169,26 @@ def send(eng, idx, v, asbytes, opsel):
     return env.run(eng.execute(q, variables=variables, operation_name=op, context=ctx))
 
 
-SH16 = [{"cfg": c, "first": f, "second": g, "b1": b, "o": o} for c in ENGS for f in range(len(POOL)) for g in range(len(POOL)) for b in (1, 0) for o in (1, 0) if c == "default" or (b, o) == (1, 1)]
+# thorough shard set (sized to finish: a shard costs ~1 CPU-minute). default cache: every ordered pair of the 17 documents with the str spelling / first operation,
+# plus the other three (spelling, operation) combinations for pairs within a core of six documents; the other three cache configurations: every ordered pair
+# that involves one of the documents that carry state-like behaviour (several operations, fragments on abstract types, invalid bytes, cycles, required variables)
+CORE16 = (0, 1, 2, 3, 7, 8)
+SPECIAL16 = (3, 10, 12, 13, 14, 15, 16)
+SH16 = [{"cfg": "default", "first": f, "second": g, "b1": 1, "o": 1} for f in range(len(POOL)) for g in range(len(POOL))]
+SH16 += [{"cfg": "default", "first": f, "second": g, "b1": b, "o": o} for f in CORE16 for g in CORE16 for (b, o) in ((0, 0), (0, 1), (1, 0))]
+SH16 += [{"cfg": c, "first": f, "second": g, "b1": 1, "o": 1} for c in ENGS if c != "default" for f in range(len(POOL)) for g in range(len(POOL))
+         if f in SPECIAL16 or g in SPECIAL16 or f == g or (c, f, g) in (("lru1", 1, 0), ("lru1", 2, 4), ("none", 9, 10), ("lru1", 11, 9), ("dict", 10, 9), ("dict", 12, 0), ("lru1", 0, 12))]
+# the third request: one of six candidates (the first, the second, and four fixed probes) — a shard with all 17 candidates cost 3-4 CPU-minutes
+THIRD = (0, 3, 10, 14)
 Q16 = [i for i, s in enumerate(SH16) if ((s["b1"], s["o"]) == (1, 1) or (s["cfg"], s["first"], s["second"], s["b1"], s["o"]) == ("default", 3, 3, 0, 0)) and (s["cfg"], s["first"], s["second"]) in (("default", 0, 0), ("default", 1, 1), ("default", 2, 2), ("default", 3, 3), ("default", 6, 0), ("default", 4, 1),
                                                                                ("lru1", 1, 0), ("lru1", 2, 4), ("default", 9, 10), ("default", 11, 10), ("default", 12, 12), ("dict", 12, 0), ("lru1", 0, 12), ("default", 13, 14), ("none", 13, 14), ("default", 15, 15), ("dict", 15, 15), ("lru1", 16, 16), ("default", 16, 16), ("lru1", 14, 13), ("dict", 13, 13), ("none", 9, 10), ("lru1", 11, 9), ("dict", 10, 9), ("dict", 2, 2), ("dict", 8, 8), ("none", 1, 1), ("default", 7, 7))]
 
 
 @obligation(tier="quick", timeout=300, thorough_timeout=900, shards=SH16, quick_shards=Q16,
-            samples=[{"i2": 1, "v0": 1, "v1": 2, "b1": True, "o": True}, {"i2": 0, "v0": 2**31, "v1": None, "b1": False, "o": False}, {"i2": 15, "v0": 2**31, "v1": 5, "b1": True, "o": True},
-                     {"i2": 16, "v0": -2**31 - 1, "v1": 0, "b1": True, "o": False}],
+            samples=[{"i2": 3, "v0": 1, "v1": 2, "b1": True, "o": True}, {"i2": 2, "v0": 2**31, "v1": None, "b1": False, "o": False}, {"i2": 0, "v0": 2**31, "v1": 5, "b1": True, "o": True},
+                     {"i2": 1, "v0": -2**31 - 1, "v1": 0, "b1": True, "o": False}, {"i2": 5, "v0": 0, "v1": -1, "b1": False, "o": True}],
             symbolic=["v0: int, v1: Optional[int] — the variables of the first two requests (unbounded); the third request reuses v0"],
-            selectors=["i2: pool index of the 3rd request", "shard: cache configuration, first and second request, str/bytes spelling of the 2nd request (the 3rd uses the other one), operation name / failure selector"],
+            selectors=["i2: the 3rd request: again the first, again the second, or one of four fixed probes (documents 0, 3, 10, 14)", "shard: cache configuration, first and second request, str/bytes spelling of the 2nd request (the 3rd uses the other one), operation name / failure selector"],
             bounds="sequences of 3 requests (every prefix is checked position by position) over 17 documents",
             note="every response of the sequence == the uncached engine's response to the same request; repeating a request gives the same response; failed/invalid requests leave no trace")
 def c16_history(i2: int, v0: int, v1: Optional[int], b1: bool, o: bool) -> bool:
@@ -187,7 +197,8 @@ def c16_history(i2: int, v0: int, v1: Optional[int], b1: bool, o: bool) -> bool:
     """
     sh = shard()
     eng = ENGS[sh["cfg"]]
-    idxs = [sh["first"], sh["second"], pick(i2, len(POOL))]
+    third = [sh["first"], sh["second"]] + list(THIRD)
+    idxs = [sh["first"], sh["second"], third[pick(i2, len(third))]]
     b1 = bool(sh["b1"])
     vs = [v0, v1, v0]; bs = [False, b1, not b1]
     o = bool(sh["o"])
